@@ -88,6 +88,8 @@ def step (s : JS) (line : String) : IO JS := do
                       okN := if outcome == "panic" then s.okN else s.okN + 1, panicN := if outcome == "panic" then s.panicN + 1 else s.panicN }
     let s ← if kvOf rest "ledger" != some "ok" then
         emit s true s!"oracle-fail C17 what=allocator_oracle_violation_({(kvOf rest "ledger").getD "?"}) case={caseS}" else pure s
+    let s ← if outcome.startsWith "OOB-READ" then
+        emit s true s!"oracle-fail C17 what=bytes_from_outside_the_slices_the_owner_answered_with_reached_the_caller_(out-of-bounds_read) case={caseS}" else pure s
     let s ← if kvOf rest "leak" != some "0" then
         emit s true s!"oracle-fail C17 what=storage_allocated_by_the_crate_not_released_after_the_call_(leak={(kvOf rest "leak").getD "?"}) case={caseS}" else pure s
     match case with
